@@ -8,6 +8,7 @@ import (
 	"fmt"
 	"time"
 
+	abci "github.com/tendermint/tendermint/abci/types"
 	tmproto "github.com/tendermint/tendermint/proto/tendermint/types"
 	"github.com/tendermint/tendermint/types"
 	"pgregory.net/rapid"
@@ -28,6 +29,24 @@ type world struct {
 	maxBlocks int64
 	maxDur    time.Duration
 	sigCache  map[string]bool
+	// number of on-chain changes of the evidence params so far
+	paramChanges int
+}
+
+// advance applies the next block; the evidence age limits in force afterwards are the ones the application
+// returned with that block (recorded here from the plan, cross-checked against the state the chain builder keeps).
+func (w *world) advance(plan *lib.HeightPlan) error {
+	if err := w.c.Advance(plan); err != nil {
+		return err
+	}
+	if plan != nil && plan.Params != nil && plan.Params.Evidence != nil {
+		w.maxBlocks, w.maxDur = plan.Params.Evidence.MaxAgeNumBlocks, plan.Params.Evidence.MaxAgeDuration
+		w.paramChanges++
+	}
+	if got := w.c.State.ConsensusParams.Evidence; got.MaxAgeNumBlocks != w.maxBlocks || got.MaxAgeDuration != w.maxDur {
+		return fmt.Errorf("VERIF-INFRA: chain state has evidence params %v, harness recorded %d/%s", got, w.maxBlocks, w.maxDur)
+	}
+	return nil
 }
 
 func (w *world) tip() int64         { return w.c.Tip() }
@@ -97,6 +116,15 @@ func (w *world) genPlan(t *rapid.T) *lib.HeightPlan {
 			p.Flags = make([]types.BlockIDFlag, cur.Size())
 			p.Flags[i] = rapid.SampledFrom([]types.BlockIDFlag{types.BlockIDFlagAbsent, types.BlockIDFlagNil}).Draw(t, "flag")
 		}
+	}
+	if rapid.IntRange(0, 7).Draw(t, "paramcoin") == 0 {
+		// the application changes the evidence age limits (EndBlock consensus-param update): lowered, raised or mixed
+		cur := c.State.ConsensusParams.Evidence
+		p.Params = &abci.ConsensusParams{Evidence: &tmproto.EvidenceParams{
+			MaxAgeNumBlocks: rapid.Int64Range(1, 6).Draw(t, "newMaxAgeBlocks"),
+			MaxAgeDuration:  time.Duration(rapid.SampledFrom([]int{1, 3, 5, 8, 20}).Draw(t, "newMaxAgeSec")) * time.Second,
+			MaxBytes:        cur.MaxBytes,
+		}}
 	}
 	if rapid.IntRange(0, 2).Draw(t, "updcoin") == 0 {
 		base := c.State.NextValidators // updates returned at h apply on top of this (in force at h+2)
@@ -872,3 +900,65 @@ func (w *world) genItem(t *rapid.T) item {
 	pe, label := w.perturbLCA(t, ev, ctx)
 	return item{ev: pe, kind: kind, pert: label, base: w.ref(ev).v == vValid}
 }
+
+// ---------------------------------------------------------------------------------------------------------------
+// hostile encoder
+
+// forgeUnhashed edits an encoded piece of evidence the way a hostile peer / proposer can without changing anything
+// a hash or a signature covers and without making the message undecodable: the redundant total voting power of the
+// conflicting validator set, proposer priorities, the set's proposer entry, public keys in the byzantine list.
+// The reference verifier reads none of these fields, so its verdict for the decoded evidence is the verdict for the
+// original.
+func forgeUnhashed(t *rapid.T, pb *tmproto.Evidence) {
+	l := pb.GetLightClientAttackEvidence()
+	if l == nil || l.ConflictingBlock == nil || l.ConflictingBlock.ValidatorSet == nil {
+		return // duplicate-vote evidence has no field outside its hash
+	}
+	vs := l.ConflictingBlock.ValidatorSet
+	var real int64
+	for _, v := range vs.Validators {
+		if v != nil {
+			real += v.VotingPower
+		}
+	}
+	prio := func(label string) int64 {
+		return rapid.SampledFrom([]int64{0, 1, -1, 1 << 40, -(1 << 40), 1<<63 - 1, -1 << 63}).Draw(t, label)
+	}
+	switch rapid.SampledFrom([]string{"one", "small", "below", "above", "huge", "negative", "keep"}).Draw(t, "forged-total") {
+	case "one":
+		vs.TotalVotingPower = 1
+	case "small":
+		vs.TotalVotingPower = rapid.Int64Range(1, real+1).Draw(t, "forged-total-v")
+	case "below":
+		vs.TotalVotingPower = real - 1
+	case "above":
+		vs.TotalVotingPower = real + 1
+	case "huge":
+		vs.TotalVotingPower = 1<<63 - 1
+	case "negative":
+		vs.TotalVotingPower = -rapid.Int64Range(1, 100).Draw(t, "forged-total-v")
+	}
+	for _, v := range vs.Validators {
+		if v != nil && rapid.Bool().Draw(t, "forge-prio") {
+			v.ProposerPriority = prio("prio")
+		}
+	}
+	if n := len(vs.Validators); n > 0 && rapid.Bool().Draw(t, "forge-proposer") {
+		cp := *vs.Validators[rapid.IntRange(0, n-1).Draw(t, "proposer")]
+		cp.ProposerPriority = prio("proposer-prio")
+		vs.Proposer = &cp
+	}
+	for _, v := range l.ByzantineValidators {
+		if v == nil {
+			continue
+		}
+		if rapid.Bool().Draw(t, "forge-byz-prio") {
+			v.ProposerPriority = prio("byz-prio")
+		}
+		if n := len(vs.Validators); n > 0 && rapid.IntRange(0, 3).Draw(t, "forge-byz-key") == 0 {
+			v.PubKey = vs.Validators[rapid.IntRange(0, n-1).Draw(t, "byz-key")].PubKey
+		}
+	}
+}
+
+var forms = []string{"direct", "wire", "wire", "wire-hostile", "wire-hostile"}
